@@ -265,6 +265,9 @@ class Alg:
             return TOP
         if op in ('zext', 'sext', 'trunc'):
             c = self.concrete(v)
+            if isinstance(v, (Cond, BoolOp)) and op == 'zext' and tty.a > 1 and getattr(self, 'indicator_symbols', False):
+                # 0/1 indicator of a comparison used in arithmetic
+                return self.sym('ind<%s>' % (v,), integer=True, nonnegative=True)
             if isinstance(v, (Cond, BoolOp, bool)):
                 return v
             if c is not None:
